@@ -17,3 +17,7 @@ PROPS = {
     },
 }
 PROPS["C30"] = {"level": "other", "rules": [("constexpr", "constexpr_table", {})]}
+PROPS["C15"] = {"level": "other", "rules": [("modes", "mode_field", {}), ("modes", "has_instr_cover", {}), ("modes", "emit_order", {})]}
+PROPS["C26"] = {"level": "other", "rules": [("siblings", "instrumenter_siblings", {})]}
+PROPS["C22"] = {"level": "other", "rules": [("special", "special_flag", {}), ("special", "resolve_clears", {}), ("special", "entry_preserve", {}), ("special", "block_tables", {})]}
+PROPS["C24"] = {"level": "proof", "rules": [("opcode", "opcode_table", {})]}
